@@ -29,7 +29,7 @@ Lemma unprepared_step c s i h id tag pid qs ks : open_query s i h -> stmt_for c 
     if ks_mismatch c s ks then (fail_with (done_i s i) XKsMismatch, [])
     else (submit (done_i s i) (TReprepare h qs (if uses_keyspace_flag (pv c) then ks else None)), []).
 Proof.
-  intros O St. rewrite (step_resp_query c s i _ h O). cbn [set_result]. unfold unprepared, stmt_for in *.
+  intros O St. rewrite (step_resp_query c s i _ h O). cbn [resp_current set_result]. unfold unprepared, stmt_for in *.
   assert (G : forall ps, ps = (pid, qs, ks) -> unprep_go c (set_attempts s (mark_done i (attempts s))) h ps =
             if ks_mismatch c s ks then (fail_with (done_i s i) XKsMismatch, [])
             else (submit (done_i s i) (TReprepare h qs (if uses_keyspace_flag (pv c) then ks else None)), [])).
